@@ -58,6 +58,35 @@ PI = z3.Real("pi")
 E_ = z3.Real("e")
 
 
+IMUL = z3.Function("imul", I, I, I)
+
+
+def use_imul(u):
+    """product of two symbolic integers, kept uninterpreted (abstraction of *): only the listed facts are used"""
+    if "imul" not in u.used:
+        u.used.add("imul")
+        a, b = z3.Ints("im_a im_b")
+        u.bg.append(z3.ForAll([b], z3.And(IMUL(0, b) == 0, IMUL(1, b) == b, IMUL(b, 0) == 0, IMUL(b, 1) == b),
+                              qid="imul-01", patterns=[IMUL(0, b), IMUL(1, b), IMUL(b, 0), IMUL(b, 1)]))
+        u.bg.append(z3.ForAll([a, b], z3.Implies(z3.And(a >= 0, b >= 0), IMUL(a, b) >= 0), qid="imul-sign", patterns=[IMUL(a, b)]))
+    return IMUL
+
+
+IDIV = z3.Function("idiv", I, I, I)
+
+
+def use_idiv(u):
+    """floor division by a symbolic positive integer, uninterpreted; facts: 0<=a<b => 0 ; b<=a<2b => 1"""
+    if "idiv" not in u.used:
+        u.used.add("idiv")
+        a, b = z3.Ints("id_a id_b")
+        u.bg.append(z3.ForAll([a, b], z3.And(z3.Implies(z3.And(b > 0, a >= 0, a < b), IDIV(a, b) == 0),
+                                             z3.Implies(z3.And(b > 0, a >= b, a < 2 * b), IDIV(a, b) == 1),
+                                             z3.Implies(z3.And(b > 0, a >= 0), IDIV(a, b) >= 0)),
+                              qid="idiv-small", patterns=[IDIV(a, b)]))
+    return IDIV
+
+
 def axioms_for(used):
     """axioms for the uninterpreted symbols in `used` (names); every one is a true fact of real analysis."""
     x, y, a = z3.Reals("ax_x ax_y ax_a")
